@@ -28,7 +28,6 @@ inductive Exc where
   | protoInterrupt            -- HSM2ProtocolInterrupt
   | indexError | valueError | overflowError | typeError | attributeError | keyError
   | recursionError | notImplemented
-  | scriptEnd                 -- model artefact: the scripted device ran out of answers
   deriving Repr, DecidableEq, Inhabited
 
 def Exc.name : Exc → String
@@ -42,7 +41,6 @@ def Exc.name : Exc → String
   | .overflowError => "OverflowError" | .typeError => "TypeError"
   | .attributeError => "AttributeError" | .keyError => "KeyError"
   | .recursionError => "RecursionError" | .notImplemented => "NotImplementedError"
-  | .scriptEnd => "ScriptEnd"
 
 /-- subclass tests used by `except` clauses -/
 def Exc.isDongleBase : Exc → Bool
